@@ -1,4 +1,8 @@
 import Pyunicorn.Lemmas.Net
+import Pyunicorn.Lemmas.NetPaths
+import Pyunicorn.Lemmas.NetAlg
+import Pyunicorn.Lemmas.NetCore
+import Pyunicorn.Generated.ArithC03
 /-!
 # C03 — Network measures equal their published definitions
 
@@ -462,6 +466,413 @@ theorem nsiCloseness_unit (n : Nat) (d : Nat → Nat → Option Nat) (i : Nat) (
     funext j; by_cases h : i = j <;> simp [h, b2n]]
   rw [this]
 
+/-! ### shortest-path lengths: the frontier BFS returns the length of a shortest walk -/
+
+/-- **`path_lengths()[i,j] = k`** (model: frontier BFS with early exit and fuel `n`) **iff there is a
+walk of `k` links from `i` to `j` and none with fewer links.** -/
+theorem dist_some_iff (n : Nat) (a : Adj) (i j k : Nat) (hi : i < n) (hj : j < n) :
+    dist n a i j = some k ↔ Walk n a i j k ∧ ∀ m, m < k → ¬ Walk n a i j m := by
+  rw [dist_eq_lev n a i hi j hj]
+  constructor
+  · intro h
+    exact ((lev_some_iff n a i n j k).mp h).2
+  · rintro ⟨w, hmin⟩
+    cases hl : lev n a i n j with
+    | none => exact absurd w ((lev_none_iff n a i j).mp hl k)
+    | some k' =>
+      obtain ⟨_, w', hmin'⟩ := (lev_some_iff n a i n j k').mp hl
+      have : k' = k := by
+        by_cases h1 : k' < k
+        · exact absurd w' (hmin k' h1)
+        · by_cases h2 : k < k'
+          · exact absurd w (hmin' k h2)
+          · omega
+      rw [this]
+
+/-- **`path_lengths()[i,j] = inf` iff no walk leads from `i` to `j`** (pigeonhole: `n` rounds suffice). -/
+theorem dist_none_iff (n : Nat) (a : Adj) (i j : Nat) (hi : i < n) (hj : j < n) :
+    dist n a i j = none ↔ ∀ k, ¬ Walk n a i j k := by
+  rw [dist_eq_lev n a i hi j hj]
+  exact lev_none_iff n a i j
+
+/-- the diagonal of `path_lengths()` is 0 -/
+theorem dist_self (n : Nat) (a : Adj) (i : Nat) (hi : i < n) : dist n a i i = some 0 :=
+  (dist_some_iff n a i i 0 hi hi).mpr ⟨Walk.nil i, fun m hm => absurd hm (Nat.not_lt_zero m)⟩
+
+/-- finite distances are smaller than the number of nodes -/
+theorem dist_lt (n : Nat) (a : Adj) (i j k : Nat) (hi : i < n) (hj : j < n)
+    (h : dist n a i j = some k) : k < n := by
+  rw [dist_eq_lev n a i hi j hj] at h
+  obtain ⟨e, he, hE⟩ := exists_levelEmpty n a i
+  -- were `k ≥ n ≥ e`, level `k` would be empty, but `j` sits on it
+  have hk := lev_exact n a i h
+  apply Classical.byContradiction
+  intro hc
+  obtain ⟨r, hr⟩ := Nat.exists_eq_add_of_le (show e ≤ k by omega)
+  have hEk : LevelEmpty n a i k := by
+    rw [hr]
+    clear hr hk h hc
+    induction r with
+    | zero => exact hE
+    | succ r ih => exact levelEmpty_succ n a i ih
+  exact hEk j hj hk
+
+/-! ### motif clustering: the denominators count the open motifs -/
+
+private theorem sumTo_diag (n j : Nat) (f : Nat → Nat) :
+    sumTo n (fun k => if j = k then f k else 0) = if j < n then f j else 0 := by
+  induction n with
+  | zero => simp [sumTo]
+  | succ m ih =>
+    rw [sumTo_succ, ih]
+    by_cases h1 : j = m
+    · subst h1; simp
+    · by_cases h2 : j < m
+      · have : j < m + 1 := by omega
+        simp [h1, h2, this]
+      · have : ¬ j < m + 1 := by omega
+        simp [h1, h2, this]
+
+private theorem sumTo_congr (n : Nat) (f g : Nat → Nat) (h : ∀ j, j < n → f j = g j) :
+    sumTo n f = sumTo n g := by
+  simp only [sumTo_eq_sumL]
+  exact sumL_congr _ f g (fun x hx => h x (List.mem_range.mp hx))
+
+private theorem b2n_split (p : Bool) (j k : Nat) :
+    b2n p = b2n (p && j != k) + (if j = k then b2n p else 0) := by
+  by_cases h : j = k <;> cases p <;> simp [h, b2n]
+
+/-- ordered pairs `(j,k)` with `p j ∧ q k` split into those with `j ≠ k` and the diagonal:
+`(Σ_j p j)(Σ_k q k) = #{(j,k) : p j ∧ q k ∧ j ≠ k} + #{j : p j ∧ q j}` -/
+theorem count_product (n : Nat) (p q : Nat → Bool) :
+    (sumTo n fun j => b2n (p j)) * (sumTo n fun k => b2n (q k))
+      = countPairs n (fun j k => p j && q k && j != k) + sumTo n fun j => b2n (p j && q j) := by
+  simp only [countPairs]
+  rw [sumTo_eq_sumL, sumTo_eq_sumL, ← sumL_mul_right]
+  simp only [← sumTo_eq_sumL]
+  rw [show (sumTo n fun j => sumTo n fun k => b2n (p j && q k && j != k))
+        + (sumTo n fun j => b2n (p j && q j))
+      = sumTo n fun j => (sumTo n fun k => b2n (p j && q k && j != k)) + b2n (p j && q j) from by
+    simp only [sumTo_eq_sumL, sumL_add]]
+  apply sumTo_congr
+  intro j hj
+  rw [sumTo_eq_sumL, ← sumL_mul_left, ← sumTo_eq_sumL]
+  have hd := sumTo_diag n j (fun k => b2n (p j && q k))
+  simp only [hj, if_true] at hd
+  rw [← hd]
+  simp only [sumTo_eq_sumL, ← sumL_add]
+  apply sumL_congr
+  intro k _
+  rw [← b2n_and]
+  exact b2n_split (p j && q k) j k
+
+/-- **cycle / mid motif denominator**: `k_in·k_out − k_bil` is the number of ordered pairs `(j,k)`,
+`j ≠ k`, with `j → i → k` (the open paths through `i` that a link `k → j` resp. `j → k`... closes). -/
+theorem TCycle_eq_count (n : Nat) (a : Adj) (i : Nat) :
+    TCycle n a i = ((countPairs n fun j k => a j i && a i k && j != k : Nat) : Int) := by
+  have h := count_product n (fun j => a j i) (fun k => a i k)
+  have hb : bildeg n a i = sumTo n fun j => b2n (a j i && a i j) := by
+    simp only [bildeg, mmul, toN, ← b2n_and]
+    apply sumTo_congr; intro j _; rw [Bool.and_comm]
+  simp only [TCycle, indeg, outdeg, hb]
+  have := congrArg (fun x : Nat => (x : Int)) h
+  simp only [Int.natCast_mul, Int.natCast_add] at this
+  omega
+
+private theorem b2n_self (p : Bool) : b2n (p && p) = b2n p := by cases p <;> rfl
+
+/-- **in motif denominator**: `k_in(k_in−1)` = ordered pairs of distinct in-neighbours. -/
+theorem TIn_eq_count (n : Nat) (a : Adj) (i : Nat) :
+    TIn n a i = ((countPairs n fun j k => a j i && a k i && j != k : Nat) : Int) := by
+  have h := count_product n (fun j => a j i) (fun k => a k i)
+  simp only [b2n_self] at h
+  simp only [TIn, indeg]
+  have := congrArg (fun x : Nat => (x : Int)) h
+  simp only [Int.natCast_mul, Int.natCast_add] at this
+  generalize ((sumTo n fun j => b2n (a j i) : Nat) : Int) = s at this ⊢
+  rw [Int.mul_sub, Int.mul_one, this]; omega
+
+/-- **out motif denominator**: `k_out(k_out−1)` = ordered pairs of distinct out-neighbours. -/
+theorem TOut_eq_count (n : Nat) (a : Adj) (i : Nat) :
+    TOut n a i = ((countPairs n fun j k => a i j && a i k && j != k : Nat) : Int) := by
+  have h := count_product n (fun j => a i j) (fun k => a i k)
+  simp only [b2n_self] at h
+  simp only [TOut, outdeg]
+  have := congrArg (fun x : Nat => (x : Int)) h
+  simp only [Int.natCast_mul, Int.natCast_add] at this
+  generalize ((sumTo n fun j => b2n (a i j) : Nat) : Int) = s at this ⊢
+  rw [Int.mul_sub, Int.mul_one, this]; omega
+
+/-! ### transitivity = 3 · triangles / connected triples -/
+
+/-- number of triangles of the graph (3-subsets of the node set that are mutually linked) -/
+def triangleCount (n : Nat) (a : Adj) : Nat := triplesP (clique3 a) (List.range n)
+/-- connected triples centred at `i`: 2-subsets of the neighbourhood of `i` -/
+def triplesAt (n : Nat) (a : Adj) (i : Nat) : Nat :=
+  pairsP (fun j k => a i j && a i k && j != k) (List.range n)
+
+theorem sum_cube_diag_eq_six_triangles (n : Nat) (a : Adj) (h : Simple a) :
+    (sumTo n fun i => tCycle n a i) = 6 * triangleCount n a := by
+  simp only [triangleCount, ← ordered3_eq _ (clique3_sym3 a h), sumTo_eq_sumL]
+  apply sumL_congr; intro i _
+  rw [← sumTo_eq_sumL, tCycle_eq_count]
+  rfl
+
+theorem TOut_eq_two_triples (n : Nat) (a : Adj) (i : Nat) :
+    TOut n a i = ((2 * triplesAt n a i : Nat) : Int) := by
+  rw [TOut_eq_count]
+  congr 1
+  have hs : Sym2 (fun j k => a i j && a i k && j != k) := by
+    constructor
+    · intro y z
+      by_cases hyz : y = z
+      · subst hyz; rfl
+      · have : ¬ z = y := fun e => hyz e.symm
+        have hb : (y != z) = (z != y) := by
+          have h1 : (y == z) = false := by simp [hyz]
+          have h2 : (z == y) = false := by simp [this]
+          simp [bne, h1, h2]
+        rw [hb]; cases a i y <;> cases a i z <;> rfl
+    · intro y; simp
+  exact ordered2_eq _ hs (List.range n)
+
+private theorem sumToI_cast (n : Nat) (f : Nat → Nat) :
+    sumToI n (fun i => ((f i : Nat) : Int)) = ((sumTo n f : Nat) : Int) := by
+  induction n with
+  | zero => simp [sumToI, sumTo]
+  | succ m ih => rw [sumToI_succ, sumTo_succ, ih, Int.natCast_add]
+
+/-- **`transitivity()` = 3·#triangles / #connected triples** (written `6T / 2P`; `nan` when the graph
+has no connected triple), for the matrix formula `Σ_i (A³)_ii / Σ_i k_i(k_i−1)`. -/
+theorem transitivity_eq_def (n : Nat) (a : Adj) (h : Simple a) :
+    transitivity n a =
+      (let P := sumTo n fun i => triplesAt n a i
+       if P = 0 then none
+       else some (((6 * triangleCount n a : Nat) : Rat) / ((2 * P : Nat) : Rat))) := by
+  have hden : (sumToI n fun i => TOut n a i) = ((2 * (sumTo n fun i => triplesAt n a i) : Nat) : Int) := by
+    rw [show (fun i => TOut n a i) = fun i => ((2 * triplesAt n a i : Nat) : Int) from
+      funext (TOut_eq_two_triples n a), sumToI_cast]
+    congr 1
+    simp only [sumTo_eq_sumL, sumL_mul_left]
+  simp only [transitivity, hden, sum_cube_diag_eq_six_triangles n a h]
+  by_cases hz : (sumTo n fun i => triplesAt n a i) = 0
+  · simp [hz]
+  · have : ¬ (((2 * (sumTo n fun i => triplesAt n a i) : Nat) : Int) = 0) := by omega
+    simp only [this, hz, if_false, Rat.intCast_natCast]
+
+/-! ### vulnerability and average path length: the code's conventions are the definitions -/
+
+/-- **`local_vulnerability()[i] = (E − E_i)/E`** with both efficiencies in their defining form (mean of
+`1/d` over ordered pairs; `E_i` on the graph with node `i` deleted and the later nodes renumbered). -/
+theorem localVulnerability_eq_def (n : Nat) (a : Adj) (i : Nat) :
+    localVulnerability n a i =
+      (let E := efficiencyDef n (dist n a)
+       let Ei := efficiencyDef (n - 1) (dist (n - 1) (removeNode a i))
+       if E = 0 then none else some ((E - Ei) / E)) := by
+  simp only [localVulnerability, globalEfficiency_eq_def]
+
+/-- `graph - i` keeps exactly the links between the other nodes: node `x ≠ i` becomes
+`x` (if `x < i`) or `x − 1`. -/
+theorem removeNode_adj (a : Adj) (i x y : Nat) (hx : x ≠ i) (hy : y ≠ i) :
+    removeNode a i (if x < i then x else x - 1) (if y < i then y else y - 1) = a x y := by
+  simp only [removeNode]
+  have h1 : (if (if x < i then x else x - 1) < i then (if x < i then x else x - 1)
+      else (if x < i then x else x - 1) + 1) = x := by
+    by_cases h : x < i
+    · simp [h]
+    · have : ¬ (x - 1 < i) := by omega
+      simp only [h, this, if_false]; omega
+  have h2 : (if (if y < i then y else y - 1) < i then (if y < i then y else y - 1)
+      else (if y < i then y else y - 1) + 1) = y := by
+    by_cases h : y < i
+    · simp [h]
+    · have : ¬ (y - 1 < i) := by omega
+      simp only [h, this, if_false]; omega
+  rw [h1, h2]
+
+private theorem sumToQ_congr' (n : Nat) (f g : Nat → Rat) (h : ∀ j, j < n → f j = g j) :
+    sumToQ n f = sumToQ n g := by
+  simp only [sumToQ]
+  congr 1
+  exact List.map_congr_left (fun x hx => h x (List.mem_range.mp hx))
+
+private theorem sumTo_const_one (n : Nat) : sumTo n (fun _ => 1) = n := by
+  induction n with
+  | zero => rfl
+  | succ m ih => rw [sumTo_succ, ih]
+
+private theorem sumTo_const (n c : Nat) : sumTo n (fun _ => c) = n * c := by
+  induction n with
+  | zero => simp [sumTo]
+  | succ m ih => rw [sumTo_succ, ih, Nat.succ_mul]
+
+private theorem sumTo_add (n : Nat) (f g : Nat → Nat) :
+    sumTo n (fun j => f j + g j) = sumTo n f + sumTo n g := by
+  simp only [sumTo_eq_sumL, sumL_add]
+
+/-- **`average_path_length(link_attribute)`** — "sum of the matrix with `inf → 0`, divided by
+`N(N−1) − #inf`" — **is the mean distance over the ordered pairs `i ≠ j` joined by a path**
+(the diagonal of the distance matrix being 0). -/
+theorem avgPathLength_eq_def (n : Nat) (d : Nat → Nat → Option Rat)
+    (hdiag : ∀ i, i < n → d i i = some 0) :
+    avgPathLength n d =
+      (let tot := sumToQ n fun i => sumToQ n fun j => if i = j then 0 else (d i j).getD 0
+       let cnt := sumTo n fun i => sumTo n fun j => b2n (i != j && (d i j).isSome)
+       if cnt = 0 then none else some (tot / (cnt : Rat))) := by
+  have htot : (sumToQ n fun i => sumToQ n fun j => (d i j).getD 0)
+      = sumToQ n fun i => sumToQ n fun j => if i = j then 0 else (d i j).getD 0 := by
+    apply sumToQ_congr'; intro i hi
+    apply sumToQ_congr'; intro j _
+    by_cases h : i = j
+    · subst h; simp [hdiag i hi]
+    · simp [h]
+  -- every ordered pair is unconnected, connected-and-off-diagonal, or diagonal
+  have hcount : (sumTo n fun i => sumTo n fun j => b2n (d i j).isNone)
+      + (sumTo n fun i => sumTo n fun j => b2n (i != j && (d i j).isSome)) + n = n * n := by
+    have hrow : ∀ i, i < n →
+        (sumTo n fun j => b2n (d i j).isNone) + (sumTo n fun j => b2n (i != j && (d i j).isSome)) + 1
+          = n := by
+      intro i hi
+      have h1 := sumTo_diag n i (fun _ => 1)
+      simp only [hi, if_true] at h1
+      rw [← h1, ← sumTo_add, ← sumTo_add]
+      conv => rhs; rw [← sumTo_const_one n]
+      apply sumTo_congr; intro j _
+      by_cases h : i = j
+      · subst h; simp [hdiag i hi, b2n]
+      · cases hd : d i j <;> simp [h, b2n]
+    have : (sumTo n fun i => ((sumTo n fun j => b2n (d i j).isNone)
+        + (sumTo n fun j => b2n (i != j && (d i j).isSome)) + 1)) = sumTo n fun _ => n :=
+      sumTo_congr n _ _ hrow
+    rw [sumTo_add, sumTo_add, sumTo_const_one] at this
+    rw [this]
+    exact sumTo_const n n
+  simp only [avgPathLength, htot]
+  have hden : (((n * (n - 1) : Nat) : Int)
+      - ((sumTo n fun i => sumTo n fun j => b2n (d i j).isNone : Nat) : Int))
+      = ((sumTo n fun i => sumTo n fun j => b2n (i != j && (d i j).isSome) : Nat) : Int) := by
+    have hm : n * (n - 1) = n * n - n := Nat.mul_sub_one n n
+    have hle : n ≤ n * n := by
+      cases n with
+      | zero => simp
+      | succ m => exact Nat.le_mul_of_pos_left _ (Nat.succ_pos m)
+    omega
+  rw [hden]
+  by_cases hz : (sumTo n fun i => sumTo n fun j => b2n (i != j && (d i j).isSome)) = 0
+  · simp [hz]
+  · simp [hz, Rat.intCast_natCast]
+
+/-! ### n.s.i. clustering with unit node weights -/
+
+/-- **`nsi_local_clustering()` with unit node weights is `(2T_i + 3k_i + 1)/(k_i + 1)²`** — the
+fraction of linked ordered pairs in the closed neighbourhood `N⁺(i)` — for the matrix formula
+`((A D_w A⁺ D_w Aᵀ)_ii + 2 k*_i w_i − w_i²)/k*_i²`. -/
+theorem nsiLocalClustering_unit (n : Nat) (a : Adj) (h : Simple a) (i : Nat) (hi : i < n) :
+    nsiLocalClustering n a (fun _ => 1) i
+      = ((2 * triangles n a i + 3 * outdeg n a i + 1 : Nat) : Rat)
+        / (((outdeg n a i + 1) * (outdeg n a i + 1) : Nat) : Rat) := by
+  have hk := nsiOutdeg_unit n a i hi (h.irr i)
+  have hnum : (sumToQ n fun j => sumToQ n fun l =>
+      if (a i j && aplus a j l && a i l) = true then (1 : Rat) * 1 else 0)
+      = ((2 * triangles n a i + outdeg n a i : Nat) : Rat) := by
+    rw [show (fun j => sumToQ n fun l =>
+          if (a i j && aplus a j l && a i l) = true then (1 : Rat) * 1 else 0)
+        = fun j => (((sumTo n fun l => b2n (a i j && aplus a j l && a i l)) : Nat) : Rat) from by
+      funext j
+      rw [← sumToQ_indicator]
+      apply sumToQ_congr; intro l; simp]
+    rw [sumToQ_cast]
+    congr 1
+    rw [← cube_diag_eq_two_triangles n a h i, tCycle_eq_count]
+    simp only [countPairs, outdeg]
+    rw [← sumTo_add]
+    apply sumTo_congr; intro j hj
+    have hd := sumTo_diag n j (fun _ => b2n (a i j))
+    simp only [hj, if_true] at hd
+    rw [← hd, ← sumTo_add]
+    apply sumTo_congr; intro l _
+    by_cases hjl : j = l
+    · subst hjl
+      simp only [aplus, h.irr j, if_true]
+      cases a i j <;> simp [b2n]
+    · have : (j == l) = false := by simp [hjl]
+      simp only [aplus, this, Bool.or_false, hjl, if_false, h.symm l i]
+      omega
+  simp only [nsiLocalClustering, hnum, hk]
+  congr 1
+  · simp only [Rat.natCast_add, Rat.natCast_mul]
+    grind
+  · simp only [Rat.natCast_mul]
+
+/-! ### assortativity -/
+
+/-- **`assortativity()` is the Pearson correlation coefficient of the degrees at the two ends of a
+link** (each link taken in both orientations; `cov/var` over that mirrored list), and the Python loop
+raises `ZeroDivisionError` exactly when the coefficient is undefined (no link, or zero variance).
+The three accumulators of the loop are the sums of Newman's formula (`Lemmas/NetAlg.lean`). -/
+theorem assortativity_eq_pearson (directed : Bool) (n : Nat) (a : Adj) :
+    assortativity directed n a = pearsonSym (endDegrees directed n a) :=
+  assortativity_eq_pearson' directed n a
+
+/-! ### coreness by peeling -/
+
+/-- **partial.**  Full statement: `coreness()[v] = c` iff `v` lies in the `c`-core (the largest node set
+all of whose induced degrees — in + out for directed networks — are `≥ c`) and not in the `(c+1)`-core.
+Proved here, for one level `k` of the peeling model `peel n a directed k fuel alive`:
+(i) it only removes nodes; (ii) it keeps every node set `S ⊆ alive` of minimum induced degree `≥ k`;
+(iii) if it stops at a fixpoint of the round it has itself minimum induced degree `≥ k` — hence it is
+the largest such set, the `k`-core inside `alive`.
+Missing: `fuel = n` always reaches the fixpoint (every non-final round removes a node), and the outer
+loop over `k` (`coreLoop`, fuel `2n+1`); `graph.coreness()` itself is igraph (compared on every run). -/
+theorem coreness_peel_partial (n : Nat) (a : Adj) (directed : Bool) (k fuel : Nat) (alive : List Bool) :
+    SubB (peel n a directed k fuel alive) alive ∧
+    (∀ S, MinDeg n a directed k S → SubB S alive → SubB S (peel n a directed k fuel alive)) ∧
+    (peelStep n a directed k (peel n a directed k fuel alive) = peel n a directed k fuel alive →
+      MinDeg n a directed k (peel n a directed k fuel alive)) :=
+  ⟨peel_sub n a directed k fuel alive,
+   fun S hS hsub => peel_keeps n a directed k S hS fuel alive hsub,
+   peelStep_fixpoint n a directed k _⟩
+
+/-! ### translator tie: the size expressions of the model are the ones in the current source
+(`Pyunicorn.Generated.ArithC03` is regenerated from `network.py` by `translate/gen_arith.py` on every run) -/
+
+open Pyunicorn.Generated in
+/-- the denominator of the model's `avgPathLength` is the source expression
+`self.N * (self.N - 1) - n_unconnected_pairs` -/
+theorem avgPathLength_den_tie (n ninf : Nat) :
+    (((n * (n - 1) : Nat) : Int) - (ninf : Int)) = ArithC03.aplDenominator n ninf := by
+  simp only [ArithC03.aplDenominator]
+  cases n with
+  | zero => simp
+  | succ m => simp only [Nat.add_sub_cancel]; push_cast; ring
+
+open Pyunicorn.Generated in
+/-- the pair count `N(N−1)` of the model's `globalEfficiency` is the source expression -/
+theorem globalEfficiency_pairs_tie (n : Nat) : ((n * (n - 1) : Nat) : Int) = ArithC03.effPairs n := by
+  have := avgPathLength_den_tie n 0
+  simpa [ArithC03.aplDenominator, ArithC03.effPairs] using this
+
+open Pyunicorn.Generated in
+/-- the model's `localVulnerability` applies the source expression
+`(global_efficiency - node_efficiency) / global_efficiency` to the two efficiencies -/
+theorem localVulnerability_tie (n : Nat) (a : Adj) (i : Nat) :
+    localVulnerability n a i =
+      (let E := globalEfficiency n (dist n a)
+       let Ei := globalEfficiency (n - 1) (dist (n - 1) (removeNode a i))
+       if E = 0 then none else some (ArithC03.vulnerabilityExpr E Ei)) := rfl
+
+open Pyunicorn.Generated in
+/-- the model's `matching` applies the source expression `commons / (kk + kk.T - commons)` -/
+theorem matching_tie (n : Nat) (a : Adj) (i j : Nat) :
+    matching n a i j =
+      (let c := mmul n (toN a) (toN a) i j
+       if ((outdeg n a i : Int) + (outdeg n a j : Int) - (c : Int)) = 0 then none
+       else some (ArithC03.matchingExpr c (outdeg n a i) (outdeg n a j))) := by
+  simp only [matching, ArithC03.matchingExpr]
+  split
+  · rfl
+  · simp [Rat.intCast_natCast]
+
 /-! ### non-vacuity: the hypotheses are satisfiable by non-trivial graphs and the counts are not 0 -/
 
 /-- the 5-clique as an adjacency predicate -/
@@ -478,5 +889,24 @@ def d3 : Adj := fun i j => (i, j) ∈ [(0, 1), (1, 2), (2, 0), (0, 2)]
 example : (tCycle 3 d3 0, tMid 3 d3 0, tIn 3 d3 0, tOut 3 d3 0) = (1, 0, 0, 1) := by decide
 example : bildeg 3 d3 0 = 1 ∧ indeg 3 d3 0 = 1 ∧ outdeg 3 d3 0 = 2 := by decide
 example : matching 5 k5 0 1 = some (3 / 5) := by decide +kernel
+
+/-- the path 0–1–2–3 plus the isolated node 4 -/
+def p4iso : Adj := fun i j => (i, j) ∈ [(0, 1), (1, 0), (1, 2), (2, 1), (2, 3), (3, 2)]
+example : Simple p4iso := ⟨by intro x y; simp only [p4iso]; grind, by intro x; simp only [p4iso]; grind⟩
+example : dist 5 p4iso 0 3 = some 3 ∧ dist 5 p4iso 0 4 = none ∧ dist 5 p4iso 4 4 = some 0 := by decide +kernel
+example : Walk 5 p4iso 0 2 2 := Walk.snoc (w := 1) (Walk.snoc (w := 0) (Walk.nil 0) (by decide) (by decide)) (by decide) (by decide)
+example : transitivity 5 p4iso = some 0 ∧ transitivity 5 k5 = some 1 := by decide +kernel
+example : triangleCount 5 k5 = 10 ∧ triplesAt 5 k5 0 = 6 := by decide +kernel
+example : (TCycle 3 d3 0, TIn 3 d3 0, TOut 3 d3 0) = (1, 0, 2) := by decide +kernel
+example : assortativity false 5 p4iso = some (-1 / 2) := by decide +kernel
+example : assortativity false 5 k5 = none := by decide +kernel
+example : localVulnerability 5 p4iso 1 = some (8 / 13) := by decide +kernel
+example : nsiLocalClustering 5 k5 (fun _ => 1) 0 = 1 := by decide +kernel
+example : peel 5 p4iso false 2 5 (List.replicate 5 true) = [false, false, false, false, false]
+    ∧ peel 5 k5 false 4 5 (List.replicate 5 true) = [true, true, true, true, true] := by decide +kernel
+example : MinDeg 5 k5 false 4 (List.replicate 5 true) :=
+  peelStep_fixpoint 5 k5 false 4 _ (by decide +kernel)
+example : coreness 5 p4iso false = [1, 1, 1, 1, 0] := by decide +kernel
+example : avgPathLengthU 5 (dist 5 p4iso) = some (5 / 3) ∧ diameter 5 (dist 5 p4iso) = 3 := by decide +kernel
 
 end Pyunicorn.Net
